@@ -336,7 +336,7 @@ type injection struct {
 }
 
 type result struct {
-	Kind      string // "" = ok; "exclusion", "lost_wakeup", "unlock_hang", "panic", "no_panic", "final_state"
+	Kind      string // "" = ok; "exclusion", "lost_wakeup", "deadlock", "unlock_hang", "panic", "no_panic", "final_state"
 	Violation string
 	Trace     []string
 	Blocked   int  // operations that were observed outstanding while another operation was issued and were granted later
@@ -625,9 +625,18 @@ func runScript(s script, inj *injection) (res result) {
 			if len(queue) == 0 && len(outstanding) == 0 {
 				break
 			}
-			// nothing issuable and every outstanding operation may block: impossible for scripts
-			// that acquire in ascending entity order (harness invariant, not a verdict on the library).
-			panic(fmt.Sprintf("harness bug: script deadlocks in the reference model: %s | outstanding %s | holders %s", s.key(), describeOutstanding(), mon.describe()))
+			if len(outstanding) == 0 {
+				panic(fmt.Sprintf("harness bug: operations left but no goroutine free and nothing outstanding: %s", s.key()))
+			}
+			// Nothing is issuable: every goroutine that still has operations is inside an acquire call. The
+			// script acquires in ascending entity order, so under correct semantics (including the writer
+			// priority over sleeping readers) the wait-for chain reader -> pending writer -> holder -> higher
+			// entity ends at an operation that must be granted: some operation has to return.
+			if !waitEvent(ctl.HangTimeout) {
+				fail("deadlock", "every goroutine is blocked in an acquire operation and none was granted within %s: outstanding %s; registered holders: %s %s",
+					ctl.HangTimeout, describeOutstanding(), mon.describe(), l.State())
+			}
+			continue
 		}
 		g := queue[pick]
 		queue = append(queue[:pick], queue[pick+1:]...)
